@@ -2,6 +2,7 @@ import LhasaV.Lemmas.ReaderLedger
 import LhasaV.Props.C17
 import LhasaV.Lemmas.CrcBurst
 import LhasaV.Lemmas.MacProps
+import LhasaV.Lemmas.MessagesProps
 /-!
 # C07 — a member is reported good only if its bytes match the recorded length and CRC-16
 -/
@@ -99,5 +100,30 @@ theorem single_bit_detected (c : BitVec 16) (data e : List UInt8) (hlen : e.leng
     (hp : CrcBurst.bitAt e p = true) (honly : ∀ i, CrcBurst.bitAt e i = true → i = p) :
     Crc.buf c (CrcBurst.xorBytes data e) ≠ Crc.buf c data :=
   CrcBurst.single_bit_detected c data e hlen p hp honly
+
+/-! ## the tool: exit status of `lha t` / `lha x` (`Model/Messages.lean`) -/
+
+/-- **Exit status.** For every archive, options, file-system state and answers: the tool exits 0
+exactly when the run did not end in `exit(-1)`, nothing faulted, and EVERY member it handled had a
+good verdict (`trace` = the (header, verdict) pairs in order) — one bad member anywhere makes the
+status non-zero, not only the last. -/
+theorem exit_status_iff (cmd : Messages.Cmd) (archive : Array UInt8) (o : Extract.Opts) (fs : Fs.St)
+    (answers : Bytes) :
+    Messages.exitStatus (Messages.run cmd archive o fs answers) = 0 ↔
+      (Messages.run cmd archive o fs answers).aborted = false ∧
+      (Messages.run cmd archive o fs answers).fault = false ∧
+      ∀ e ∈ (Messages.run cmd archive o fs answers).trace, e.2 = true :=
+  MessagesProps.exit_status_iff cmd archive o fs answers
+
+/-- the members handled are exactly those the wildcard arguments select -/
+theorem handled_members_selected (cmd : Messages.Cmd) (archive : Array UInt8) (o : Extract.Opts)
+    (fs : Fs.St) (answers : Bytes) :
+    ∀ e ∈ (Messages.run cmd archive o fs answers).trace, Glob.matchesFilter o.filters e.1 = true :=
+  MessagesProps.trace_selected cmd archive o fs answers
+
+/-- the progress bar is never wider than 58 marks, whatever the member's size -/
+theorem progress_bar_width (n : Nat) :
+    (n + (1 + n / Messages.maxProgressLen) - 1) / (1 + n / Messages.maxProgressLen) ≤ Messages.maxProgressLen :=
+  MessagesProps.bar_width_le n
 
 end LhasaV.Props.C07
